@@ -7,6 +7,7 @@
              | R!<xname>,<xname>... | R!-     remove_extra_dims
              | S!<xname>!<size>!<x values>    raw values of one extra dimension (size bytes per record)
              | T!<size>!<x blocks>            raw standard bytes of every record
+             | P!<edims or ->!<size>!<x bytes> las.points = a record whose own format has these extra dimensions (size bytes per point)
              | W                              write / read round trip
         edim = <xname>~s<id>|o<n>~-|<s0,s1,..>/<o0,o1,..>~<xdesc>
         vlrs = <xuid>:<rid>:<xdesc>:<xdata>|...   or -
@@ -89,6 +90,7 @@ let op_of_tok t = match String.split_on_char '!' t with
   | ["R"; ns] -> Remove (List.map bytes_of_tok (split_on ',' ns))
   | ["S"; n; size; vals] -> Assign (bytes_of_tok n, values_of (int_of_string size) vals)
   | ["T"; size; vals] -> AssignStd (values_of (int_of_string size) vals)
+  | ["P"; ds; size; vals] -> SetPoints (List.map edim_of_tok (split_on '+' ds), values_of (int_of_string size) vals)
   | ["W"] -> RoundTrip
   | _ -> failwith ("bad op " ^ t)
 let tok_of_state st =
